@@ -148,10 +148,17 @@ func init() {
 	}
 
 	Checks["C15"] = func(c *Ctx) {
-		nmax, depth := pick(c, 6, 6), pick(c, 5, 6)
-		c.Cov.Rule = "every block history (no de-duplication) with at most Nmax leaves ever added and at most D blocks (every deletion subset of the live leaves x every addition count, non-empty blocks); the summaries fed to AddBlockSummary are the reference proof targets in request order and the addition counts; GenerateCachingSchedule is evaluated for every memory limit from 1 to (leaves ever added)+1 on a fresh tracker; oracle from the model's birth/death table: every scheduled position of block b is the insertion slot of a leaf added in b and deleted in a later block, ascending without repeats, at most m scheduled leaves alive across any block, complete when m >= leaves ever added, no panic; states = histories, transitions = (history, limit) evaluations, non-trivial = histories with a deletion"
-		c.Cov.Bound["Nmax"] = nmax
-		c.Cov.Bound["depth"] = depth
+		schedPass(c, pick(c, 6, 6), pick(c, 5, 6), "")
+		// wider but shallower: deletions of whole aligned subtrees of 4 need 8 leaves
+		schedPass(c, pick(c, 8, 9), 3, "wide.")
+	}
+}
+
+func schedPass(c *Ctx, nmax, depth int, tag string) {
+	{
+		c.Cov.Rule = "every block history (no de-duplication) with at most Nmax leaves ever added and at most D blocks (every deletion subset of the live leaves x every addition count, non-empty blocks); the summaries fed to AddBlockSummary are the reference proof targets in request order and the addition counts; GenerateCachingSchedule is evaluated for every memory limit from 1 to (leaves ever added)+1 on a fresh tracker; oracle from the model's birth/death table: every scheduled position of block b is the insertion slot of a leaf added in b and deleted in a later block, ascending without repeats, at most m scheduled leaves alive across any block, complete when m >= leaves ever added, no panic; states = histories, transitions = (history, limit) evaluations, a second, wider and shallower pass (more leaves, depth 3) reaches deletions of whole aligned subtrees of four; non-trivial = histories with a deletion"
+		c.Cov.Bound[tag+"Nmax"] = nmax
+		c.Cov.Bound[tag+"depth"] = depth
 		// first-level subtrees as parallel tasks: enumerate all histories of depth<=2 as seeds
 		type seed struct {
 			hist []Op
